@@ -159,6 +159,19 @@ fn histories<TC: ModelCfg>(quick: bool) -> Vec<Vec<Batch>> {
             }
         }
     }
+    // tree-shape alphabets (node decompression with a simultaneous insertion below the pushed-down node,
+    // both orientations): all depth-2 histories whose first batch is non-empty
+    for orient in 0..2 {
+        let sb = shape_batches::<TC>(orient);
+        for b1 in sb.iter().filter(|b| !b.is_empty()) {
+            for b2 in sb.iter() {
+                if quick && (b1.len() != 2 || b2.len() > 2) {
+                    continue;
+                }
+                hs.push(vec![b1.clone(), b2.clone()]);
+            }
+        }
+    }
     let a = alphabet::<TC>();
     hs.extend(chain_histories(&a.labels[0], &a.labels[1], if quick { 5 } else { 9 }, 1));
     // the extended alphabet (empty / long labels and values, a rejected batch in the middle)
